@@ -204,6 +204,16 @@ _c04 = [
     H("c04_ss_step_u16_m2", 2400, "quick", "SetSketcher<u16>::sketch from an arbitrary Inv-state: registers == max(old, unpruned contribution of the item), Inv kept, shuffle reset", "m=2, any registers, any (b,a,q<2^40), any item, any generator output", stubs=_LN),
     H("c04_ss_step_u16_m3", 3600, "thorough", "same", "m=3", stubs=_LN),
     H("c04_ss_step_u32_m2", 2400, "thorough", "SetSketcher<u32>::sketch step", "m=2", stubs=_LN),
+    H("c04_smh_step_f64_m2", 1800, "quick", "SuperMinHash<f64>::sketch from an arbitrary Inv-state: hsketch == position-wise min(old, unpruned contribution of the item); histogram/upper-bound invariant kept", "m=2"),
+    H("c04_smh_step_f64_m3", 2400, "quick", "same", "m=3"),
+    H("c04_smh_step_f64_m4", 3600, "thorough", "same", "m=4"),
+    H("c04_smh_step_f32_m2", 1800, "thorough", "SuperMinHash<f32>::sketch step", "m=2"),
+    H("c04_smh_step_f32_m3", 2400, "thorough", "same", "m=3"),
+    H("c04_smh_step_f32_m4", 3600, "thorough", "same", "m=4"),
+    H("c04_smh2_step_m2", 1800, "quick", "SuperMinHash2<u64>::sketch from an arbitrary Inv-state (dirty permutation generator): per position lexicographic min of (level, value) with the item's unpruned contribution, stored hash follows, Inv kept", "m=2"),
+    H("c04_smh2_step_m3", 2400, "thorough", "same", "m=3"),
+    H("c04_smh2_step_m4", 3600, "thorough", "same", "m=4"),
+    H("c04_smh2_first_m3", 1800, "quick", "fresh SuperMinHash2: the first item writes its hash on every position", "m=3"),
     H("c04_opt_step_m1", 900, "thorough", "OptDensMinHash::sketch step: chosen bin keeps the smaller r (tie: later item), others untouched, Inv kept, (r,bin) = documented function of the item stream", "m=1"),
     H("c04_opt_step_m2", 900, "quick", "same", "m=2"),
     H("c04_opt_step_m3", 900, "quick", "same", "m=3"),
@@ -284,3 +294,73 @@ SPECS["C09"] = dict(
     level_note="Trusted: Kani/CBMC, ChaCha oracle model. Non-empty termination only within the unwinding bound (stated).",
     technique="Kani/CBMC bounded model checking with an oracle RNG model; unwinding assertion as non-termination detector on the empty stream",
 )
+
+
+
+# --------------------------------------------------------------------------------------- C02
+_c02 = [
+    H("c02_pmh3_step_m2_n3", 1800, "quick", "ProbMinHash3::hash_item from an arbitrary state (tracker Inv): registers == min(old, best point per position of the item's unpruned race), signature follows the strict minimum, tracker Inv kept", "m=2, first 3 points of the item, weight = any 2^e (|e|<=40), states with max register <= 3/w"),
+    H("c02_pmh3_step_m3_n4", 2400, "quick", "same", "m=3, 4 points"),
+    H("c02_pmh3_step_m4_n5", 3600, "thorough", "same", "m=4, 5 points"),
+    H("c02_pmh3_step_m2_n3_w3", 1800, "thorough", "same, weight 3.0", "m=2"),
+    H("c02_pmh3_step_m3_n4_w07", 2400, "thorough", "same, weight 0.7", "m=3"),
+    H("c02_pmh2_step_m2", 1800, "quick", "ProbMinHash2::hash_item from an arbitrary state (tracker Inv, dirty permutation generator): registers == min(old, the item's point at that position), signature follows, Inv kept", "m=2, weight any 2^e"),
+    H("c02_pmh2_step_m3", 2400, "quick", "same", "m=3"),
+    H("c02_pmh2_step_m4", 3600, "thorough", "same", "m=4"),
+    H("c02_pmh2_step_m3_w07", 2400, "thorough", "same, weight 0.7", "m=3"),
+]
+SPECS["C02"] = dict(level="model_checking", harnesses=_c02, functions=[], bounds={}, outside="", assumptions=[], not_decided=[], level_text="x", level_note="x", technique="x", disabled=True)
+
+
+# --------------------------------------------------------------------------------------- C16
+_XM1 = ["f64::exp_m1 -> arbitrary value (it only selects accept/reject in the last test, never the returned value)"]
+_NU1 = ["--no-unwinding-checks"]
+_c16 = [
+    H("c16_support_any_constants", 1800, "quick", "ExpRestricted01::sample: every return yields 0 <= x < 1; constants symbolic within the ranges new() produces (c1>=1, 0<c2<=1/2, 0<c3<=1)", "one iteration of the (state-free) rejection loop; every generator output", stubs=_XM1, extra=_NU1),
+    H("c16_support_m2", 900, "quick", "same with the constants of lambda = ln 2 (ProbMinHash3 with m = 2)", "one loop iteration", stubs=_XM1, extra=_NU1),
+    H("c16_support_m3", 900, "thorough", "same, lambda = ln(3/2)", "one loop iteration", stubs=_XM1, extra=_NU1),
+    H("c16_support_m5", 900, "thorough", "same, lambda = ln(5/4)", "one loop iteration", stubs=_XM1, extra=_NU1),
+]
+SPECS["C16"] = dict(
+    level="model_checking", harnesses=_c16,
+    functions=["exp01::ExpRestricted01::sample", "rand::distr::Uniform<f64>::sample"],
+    bounds={"quick": "constants symbolic (ranges above) and the lambda = ln 2 instance; one iteration of the rejection loop", "thorough": "plus lambda = ln(3/2), ln(5/4)"},
+    outside="the LAW of the samples ((1-exp(-lambda x))/(1-exp(-lambda)) is an area under exp: a measure, not decidable by a solver) - NOT decided; further iterations of the rejection loop (it is state-free: an iteration starts from the same state with fresh draws, so one iteration covers all)",
+    assumptions=["generator = oracle (any u64 per draw)", "exp_m1 havocked", "constants within the ranges that new(lambda) yields mathematically (new itself uses exp/ln/exp_m1 and is not encoded)"],
+    not_decided=["the samples follow the truncated exponential law (distributional clause)"],
+    level_text="Bounded model checking of the support clause only: for every generator output and every admissible constant triple, each return of ExpRestricted01::sample is in [0,1); all three acceptance paths are shown reachable.",
+    level_note="Trusted: Kani/CBMC, oracle RNG model. The distributional clause of C16 is not decided. Rejection loop cut after one iteration (--no-unwinding-checks), justified by the loop being state-free.",
+    technique="Kani/CBMC bounded model checking (support only), libm stub",
+)
+
+# --------------------------------------------------------------------------------------- C07
+_PW = ["f64::powf -> arbitrary value in the enclosure [1, sqrt(b)(1+4eps)] for b in (1,2], exponent in [0,1/2]; exact 1 at exponent 0"]
+def _c07_confirm(test_src, rdir):
+    import native_c07
+    return native_c07.confirm(test_src, rdir)
+
+
+_c07 = [H("c07_bounds_b%d" % i, 2400, "thorough" if i not in (0, 3) else "quick", "SetSketchParams::get_jaccard_bounds returns (no abort), lo<=hi, lo>=0, both finite", "b in [%s], every jac in [0,1]" % r, stubs=_PW, native_confirm=_c07_confirm)
+        for i, r in enumerate(["1.00001,1.0001", "1.0001,1.001", "1.001,1.01", "1.01,1.1", "1.1,1.3", "1.3,1.6", "1.6,2.0"])]
+_c07.append(H("c07_bounds_ball", 3600, "thorough", "same", "b in [1.00001, 2], every jac in [0,1]", stubs=_PW, native_confirm=_c07_confirm))
+SPECS["C07"] = dict(
+    level="model_checking", harnesses=_c07,
+    functions=["setsketcher::SetSketchParams::get_jaccard_bounds"],
+    bounds={"quick": "b in [1.00001,1.0001] and [1.01,1.1], every jac in [0,1] (all f64 values)", "thorough": "b in [1.00001, 2] split in 7 sub-ranges plus the whole range"},
+    outside="b in (1, 1.00001); 'the interval contains the true Jaccard index within 1e-4' (real analysis over b^x) and the collision-probability clause (an expectation) are NOT decided",
+    assumptions=["powf replaced by an arbitrary value inside its enclosure; sqrt, *, /, -, max are IEEE-exact in CBMC's float theory"],
+    not_decided=["expected fraction of equal registers equals the collision probability (expectation)", "the interval contains the true Jaccard index up to 1e-4 (needs the real function b^x)"],
+    level_text="Bounded model checking of the bounds function only: for every b in the range and every collision fraction in [0,1] the call returns, both ends are finite, 0 <= lower <= upper.",
+    level_note="Trusted: Kani/CBMC float theory; powf stubbed by an enclosure (a counterexample is therefore confirmed by a native search with the real libm before it is reported).",
+    technique="Kani/CBMC bounded model checking over f64 with a libm enclosure stub",
+)
+
+
+# --------------------------------------------------------------------------------------- C11
+_c11 = [
+    H("c11_store_m2_l1", 900, "quick", "OrdMinHashStore::update_with_maxtracker from any sorted store: pair enters iff it beats the l-th smallest value of the position; lists stay sorted; other positions untouched; tracker slot == l-th value", "m=2,l=1"),
+    H("c11_store_m2_l2", 1200, "quick", "same", "m=2,l=2"),
+    H("c11_store_m3_l3", 2400, "thorough", "same", "m=3,l=3"),
+    H("c11_hashset_perm_l1_m2", 3600, "thorough", "ProbOrdMinHash2::hash_set, l=1: signature invariant under swapping a two-element sequence", "m=2, |seq|=2"),
+]
+SPECS["C11"] = dict(level="model_checking", harnesses=_c11, functions=[], bounds={}, outside="", assumptions=[], not_decided=[], level_text="x", level_note="x", technique="x", disabled=True)
